@@ -207,15 +207,37 @@ def pinnedPromoTemplate (r : Rng) : Rng × Rules.Pos :=
   let (r, b) := scatter r b n
   (r, { board := b, player := .white, rights := Rights.none, ep := none, halfmove := 0, plies := 64 })
 
+/-- the king on the last rank checked along it by a rook or queen, a pawn of its own on the seventh rank on a
+    file in between: promoting interposes (the queen promotion belongs to the loud moves although it captures
+    nothing) -/
+def interposePromoTemplate (r : Rng) : Rng × Rules.Pos :=
+  let empty : Rules.RBoard := Vector.replicate 64 none
+  let (r, a) := r.below 3            -- king file 0..2 or mirrored
+  let (r, gap) := r.below 3
+  let (r, side) := r.below 2
+  let (r, q) := r.below 2
+  let kf := if side = 0 then a else 7 - a
+  let pf := if side = 0 then a + 1 + gap else 7 - a - 1 - gap
+  let rf := if side = 0 then min 7 (pf + 1 + gap) else (pf - 1 - min gap (pf - 1))
+  let b := empty.set! (sqAt kf 7) (some ⟨.king, .white⟩)
+  let b := b.set! (sqAt pf 6) (some ⟨.pawn, .white⟩)
+  let b := b.set! (sqAt rf 7) (some ⟨if q = 0 then .rook else .queen, .black⟩)
+  let (r, bk) := r.below 40
+  let b := putIfEmpty b bk ⟨.king, .black⟩
+  let (r, n) := r.below 3
+  let (r, b) := scatter r b n
+  (r, { board := b, player := .white, rights := Rights.none, ep := none, halfmove := 0, plies := 90 })
+
 def hasBothKings (p : Rules.Pos) : Bool :=
   Rules.count p.board (· == ⟨.king, .white⟩) == 1 && Rules.count p.board (· == ⟨.king, .black⟩) == 1
 
 /-- a legal template position (both colours: every second one is mirrored) -/
 def templatePos (r : Rng) : Rng × Option Rules.Pos :=
-  let (r, which) := r.below 15
+  let (r, which) := r.below 16
   let (r, p) := if which < 6 then epTemplate r else if which < 8 then castleTemplate r
     else if which < 10 then promoTemplate r else if which < 12 then boxedCheckTemplate r
-    else if which < 14 then cornerRookTemplate r else pinnedPromoTemplate r
+    else if which < 14 then cornerRookTemplate r else if which < 15 then pinnedPromoTemplate r
+    else interposePromoTemplate r
   let (r, mir) := r.below 2
   let p := if mir = 0 then p else mirrorPos p
   (r, if hasBothKings p && Rules.legalPos p then some p else none)
